@@ -262,6 +262,12 @@ func c18GeoJSON(c *fw.Ctx, idx int) {
 		return
 	}
 	c.SetInput(map[string]any{"format": "geojson", "digits": d, "bbox": withBBox, "geometry": g.String(), "output": clipStr(string(a), 600)})
+	heldA := string(a)
+	c.Guard("panic", func() { geojson.Marshal(c18Model(r, d, c18JSONLayouts, false).BuildFlat(), optsA...) })
+	if string(a) != heldA {
+		c.Fail("result-invalidated", "the slice returned by geojson.Marshal changed after a later Marshal call")
+		return
+	}
 	if string(a) != string(b) {
 		c.Fail("option-order", "the two option orders give different output: %s vs %s", clipStr(string(a), 200), clipStr(string(b), 200))
 		return
